@@ -545,8 +545,16 @@ class Exec:
             return argv[0]
         return None
 
+    def ref_target(self, p, cur_fn, raw_arg):
+        """the place a `&mut` argument points to (for handlers that model mutation through a reference)"""
+        m = re.match(r"^(?:move|copy) (_\d+)$", raw_arg.strip())
+        if not m:
+            return None
+        return p.ghost.get("_refs", {}).get(cur_fn.name + ":" + m.group(1))
+
     def call(self, p, fn_name, dst, fn, args, ret, cur_fn):
         argv = [self.operand(p, a) for a in args]
+        self.raw_args = args
         dst_type = cur_fn.types.get(dst, "")
         if self.handler:
             r = self.handler(self, p, fn, argv, dst, dst_type, cur_fn)
@@ -622,6 +630,11 @@ class Exec:
                 m = re.match(r"^(.+?) = (.+);$", st, re.S)
                 if not m:
                     raise Inconclusive("unsupported statement %r" % st)
+                rm = re.match(r"^&(?:mut |raw mut )(.+)$", m.group(2).strip())
+                if rm and re.match(r"^_\d+$", m.group(1).strip()):
+                    refs = dict(p.ghost.get("_refs", {}))
+                    refs[fn.name + ":" + m.group(1).strip()] = rm.group(1).strip()
+                    p.ghost["_refs"] = refs
                 self.assign(p, m.group(1), self.rvalue(p, m.group(2), fn, m.group(1).strip()))
             term = stmts[-1]
             if term == "return;":
